@@ -729,11 +729,12 @@ func (x *Exec) loopEdge(st *State, li *loopInfo, from, to *ssa.BasicBlock) bool 
 		env.loopHead = x.snapEnv(st, fr.loopHead[to.Index])
 	}
 	ctl := x.loopControl(li)
-	if back {
-		// iter(): index of the iteration that just ran -- the hidden range index, or the loop counter's value at the head
-		if ric := x.rangeIndexCell(st, li); ric != "" {
-			env.iter = &Val{S: ric, T: types.Typ[types.Int]}
-		} else if ctl != nil && fr.loopHead != nil && fr.loopHead[to.Index] != nil {
+	// iter(): index of the iteration that just ran -- the hidden range index (-1 before the first iteration; also
+	// available in the invariants of range loops), or, at the back edge, the loop counter's value at the head
+	if ric := x.rangeIndexCell(st, li); ric != "" {
+		env.iter = &Val{S: ric, T: types.Typ[types.Int]}
+	} else if back {
+		if ctl != nil && fr.loopHead != nil && fr.loopHead[to.Index] != nil {
 			if v, ok := fr.loopHead[to.Index].vars[ctl.v.Comment]; ok {
 				vv := v
 				env.iter = &vv
@@ -801,6 +802,9 @@ func (x *Exec) loopEdge(st *State, li *loopInfo, from, to *ssa.BasicBlock) bool 
 	x.havocLoop(st, li)
 	env = x.invEnv(st)
 	env.loopEntry = snap
+	if ric := x.rangeIndexCell(st, li); ric != "" {
+		env.iter = &Val{S: ric, T: types.Typ[types.Int]}
+	}
 	for _, cl := range spec.Invariants {
 		x.assume(st, x.clauseTerm(st, cl, env))
 	}
@@ -1472,7 +1476,7 @@ func (x *Exec) doSlice(st *State, ins *ssa.Slice, site string) {
 					owned = true
 				}
 			}
-			if !owned {
+			if !owned && !readOnlyFlow(ins, map[ssa.Value]bool{}, 0) {
 				x.check(st, "safe:alias@"+site, fmt.Sprintf("(= %s %s)", hi, l), site)
 			}
 		}
@@ -1493,7 +1497,7 @@ func (x *Exec) makeClosure(st *State, ins *ssa.MakeClosure) {
 	cx.sortOf(f.Signature)
 	if fc := x.w.Contracts[fnKey(x.w.pkgOfFn(f), f)]; fc != nil {
 		for i, fv := range f.FreeVars {
-			want := fc.FuncVars[fv.Name()]
+			want := x.funcVarKey(f, fc, fv.Name())
 			if want == "" || want == "passthrough" {
 				continue
 			}
@@ -1502,7 +1506,7 @@ func (x *Exec) makeClosure(st *State, ins *ssa.MakeClosure) {
 				got = x.provenance(fr.fn, &ssa.UnOp{X: a}, 0)
 			} else if pfv, ok := ins.Bindings[i].(*ssa.FreeVar); ok {
 				if uc := x.w.Contracts[fnKey(x.w.pkgOfFn(fr.fn), fr.fn)]; uc != nil {
-					got = uc.FuncVars[pfv.Name()]
+					got = x.funcVarKey(fr.fn, uc, pfv.Name())
 				}
 			}
 			g := "true"
@@ -2091,4 +2095,96 @@ func (x *Exec) loopControl(li *loopInfo) *loopCtl {
 	}
 	ctl.hasInit = ok2 && inits == 1
 	return ctl
+}
+
+// readOnlyFlow: the slice value v is only ever read -- indexed, measured, resliced, kept in local variables, or handed to
+// statically known callees that do the same with the parameter. Such a prefix x[:k] can share storage with x safely:
+// nothing is appended to it and no element is written through it, so the value model of slices stays sound.
+func readOnlyFlow(v ssa.Value, seen map[ssa.Value]bool, depth int) bool {
+	if seen[v] {
+		return true
+	}
+	seen[v] = true
+	if depth > 4 || v.Referrers() == nil {
+		return false
+	}
+	for _, r := range *v.Referrers() {
+		switch r := r.(type) {
+		case *ssa.DebugRef:
+		case *ssa.IndexAddr:
+			if r.X != v {
+				return false
+			}
+			for _, rr := range *r.Referrers() {
+				switch u := rr.(type) {
+				case *ssa.UnOp:
+					if u.Op != token.MUL {
+						return false
+					}
+				case *ssa.DebugRef:
+				default:
+					return false // element address stored to, or escaping
+				}
+			}
+		case *ssa.Slice:
+			if r.X != v || !readOnlyFlow(r, seen, depth) {
+				return false
+			}
+		case *ssa.Phi:
+			if !readOnlyFlow(r, seen, depth) {
+				return false
+			}
+		case *ssa.Store:
+			// kept in a local variable: every value read back from it must be used read-only, too
+			al, ok := r.Addr.(*ssa.Alloc)
+			if !ok || r.Val != v || al.Heap {
+				return false
+			}
+			if seen[al] {
+				continue
+			}
+			seen[al] = true
+			for _, ar := range *al.Referrers() {
+				switch u := ar.(type) {
+				case *ssa.Store:
+					if u.Addr != al {
+						return false // the variable's address escapes
+					}
+				case *ssa.UnOp:
+					if u.Op != token.MUL || !readOnlyFlow(u, seen, depth) {
+						return false
+					}
+				case *ssa.DebugRef:
+				default:
+					return false // captured by a closure, address taken
+				}
+			}
+		case *ssa.Call:
+			cc := r.Common()
+			if cc.IsInvoke() {
+				return false
+			}
+			if b, ok := cc.Value.(*ssa.Builtin); ok {
+				if b.Name() != "len" && b.Name() != "cap" {
+					return false
+				}
+				continue
+			}
+			callee := cc.StaticCallee()
+			if callee == nil || len(callee.Blocks) == 0 || callee.Signature.Variadic() {
+				return false
+			}
+			for i, a := range cc.Args {
+				if a != v {
+					continue
+				}
+				if i >= len(callee.Params) || !readOnlyFlow(callee.Params[i], seen, depth+1) {
+					return false
+				}
+			}
+		default:
+			return false
+		}
+	}
+	return true
 }
